@@ -30,6 +30,7 @@ def retExit (b : Block) : List Instr :=
 def brkExit (b : Block) : List Instr :=
   match b.typ with
   | BT.scope => [Instr.nop]          -- placeholder later patched with that scope's leaveBlock
+  | BT.iterScope => [Instr.nop]
   | BT.try_ => [Instr.leaveTry]
   | BT.with_ => [Instr.leaveWith]
   | BT.loopEnum => [Instr.enumPopClose]
@@ -49,10 +50,12 @@ theorem return_exits_each_block_once (blocks : List Block) (code : Array Instr) 
 
 /-- branch_exits_each_block_once: for EVERY block stack and target height `t` inside it,
 break/continue emits exactly one exit instruction per try / with / for-in-of / scope block
-strictly between the current block and the target block, innermost first, none for the target. -/
+strictly between the current block and the target block, innermost first, none for the target
+(`cfl = false`: break, or continue of a for-in/of loop; a `continue` of a plain loop additionally stops
+at that loop's own per-iteration scope). -/
 theorem branch_exits_each_block_once (t : Nat) (blocks : List Block) (code : Array Instr)
     (ht : t < blocks.length) :
-    (exitWalk t blocks code).2.toList =
+    (exitWalk t false blocks code).2.toList =
       code.toList ++ (blocks.take (blocks.length - 1 - t)).flatMap brkExit := by
   induction blocks generalizing code with
   | nil => simp at ht
@@ -68,7 +71,7 @@ theorem branch_exits_each_block_once (t : Nat) (blocks : List Block) (code : Arr
 
 /-- the blocks below the target are never touched by the walk -/
 theorem exitWalk_length (t : Nat) (blocks : List Block) (code : Array Instr) :
-    (exitWalk t blocks code).1.length = blocks.length := by
+    (exitWalk t false blocks code).1.length = blocks.length := by
   induction blocks generalizing code with
   | nil => simp [exitWalk]
   | cons b rest ih =>
@@ -192,7 +195,7 @@ theorem closeOnFatal_prefix_witness (sp : IterSpec) :
 /-- `try { log 1 } catch { log 2 } finally { throw 8 }` and `for (x of it) { <stack overflow> }`:
 the mini-VM agrees with the reference semantics on the original failing inputs (test on literals) -/
 def witnessQ1 : Stmt := .tryS 1 (.log 1) true (.log 2) true (.thr 8)
-def witnessQ2 : Stmt := .forOf ⟨1, 2, none, .ok⟩ .fatal
+def witnessQ2 : Stmt := .forOf ⟨1, 2, none, .ok, false⟩ .fatal
 
 theorem vm_on_repaired_inputs :
     (runProgramWith 100 witnessQ1).1 = (.thr 8, (refSem witnessQ1).2) ∧
